@@ -559,6 +559,22 @@ func runDesc(line []byte, rec *recorder) {
 				}
 				rec.ev(e2)
 			}
+			// a loop whose length leaves one lone byte after its last whole descriptor: the descriptor header straddles the end of the loop
+			// (its length byte is the first byte of whatever follows the loop: 0x00 for every service / event id below 256)
+			for _, nb := range []byte{0x00, byte(1 + r.intn(255))} {
+				lp := append(append([]byte(nil), a...), m[0])
+				bb := append(append(append([]byte{0xf0 | byte(len(lp)>>8), byte(len(lp))}, lp...), nb), z...)
+				var off3 int
+				var gerr3 error
+				if pn := safeCall(func() { _, off3, gerr3 = astits.VerifParseDescriptors(bb) }); pn != nil {
+					gerr3 = fmt.Errorf("panic %v", pn)
+				}
+				e3 := M{"ev": "dover", "class": "descriptor-header-straddles-loop-end", "mid": midKind, "gerr": errStr(gerr3), "goff": off3, "loopend": 2 + len(lp), "blen": len(bb), "nb": int(nb)}
+				if gerr3 != nil && fmt.Sprint(gerr3)[:5] == "panic" {
+					e3["gerr"] = "panic"
+				}
+				rec.ev(e3)
+			}
 		}
 	default:
 		fatal("unknown desc part %q", sc.Part)
